@@ -215,8 +215,9 @@ class CHECK(Check):
     thorough_budget_s = 900
     rule = ("matrices with 2..12 rows, 1..4 sensitive and 1..4 other columns, entries dyadic k/2^j (|k|<=12, j<=2) with "
             "per-column offsets; sensitive block generic / collinear / duplicated / constant / one-hot / more columns than rows; "
-            "ids by position in random order (ndarray float or int) or by name (DataFrame with shuffled string names), rarely a "
-            "repeated id; alpha in {0,1/4,1/2,3/4,1}; new data of 1..6 rows; distinct = distinct (X, ids, alpha, container, Xnew); "
+            "ids by position in random order (ndarray float or int) or by column LABEL (DataFrame; labels = shuffled strings, the default RangeIndex, or integers that "
+            "differ from the positions: shifted 1..m / 2.. / 10.., a permutation of 0..m-1, sparse; the same labels on the new data; "
+            "mixed str/int labels are rejected by sklearn and not generated), rarely a repeated id; alpha in {0,1/4,1/2,3/4,1}; new data of 1..6 rows; distinct = distinct (X, ids, alpha, container, Xnew); "
             "non-trivial = at least one non-constant sensitive column")
     explanation = ("theorems over the Lean model CorrRemover for all inputs; numpy.linalg.lstsq enters only through the normal "
                    "equations (checked on every case with the fitted beta_); correspondence: sensitive_mean_, fit_transform, "
@@ -309,8 +310,28 @@ class CHECK(Check):
             if container == "ndarray" and allint and rng.random() < 0.5:
                 container = "ndarray_int"
             names = rng.sample(NAMES, m)
-            yield {"X": [[str(v) for v in r] for r in X], "ids": ids, "alpha": rng.choice(ALPHAS),
-                   "container": container, "names": names, "Xnew": [[str(v) for v in r] for r in Xnew], "kind": kind}
+            case = {"X": [[str(v) for v in r] for r in X], "ids": ids, "alpha": rng.choice(ALPHAS),
+                    "container": container, "names": names, "Xnew": [[str(v) for v in r] for r in Xnew], "kind": kind}
+            if container == "dataframe":
+                # column LABELS of the DataFrame (`sensitive_feature_ids` are given by label, for fit and for transform of new
+                # data): strings, the default RangeIndex, and integer labels that differ from the positions -- shifted (1..m,
+                # e.g. after an id column was dropped), a permutation of 0..m-1 (every label is ALSO a valid position of
+                # another column), sparse integers.  (Mixed str / int labels are rejected by sklearn's validate_data.)
+                lk = rng.choice(["str", "str", "range", "shifted", "shifted", "permuted", "permuted", "sparse"])
+                case["label_kind"] = lk
+                if lk == "shifted":
+                    k0 = rng.choice([1, 1, 2, 10])
+                    case["names"] = [k0 + c for c in range(m)]
+                elif lk == "permuted":
+                    perm = list(range(m))
+                    for _ in range(4):
+                        rng.shuffle(perm)
+                        if perm != list(range(m)):
+                            break
+                    case["names"] = perm
+                elif lk == "sparse":
+                    case["names"] = rng.sample(range(0, 4 * m + 3), m)
+            yield case
 
     def _relations(self, case):
         try:
@@ -331,6 +352,8 @@ class CHECK(Check):
         n, m = len(X), len(X[0])
         if case["container"] != "ndarray":
             yield dict(case, container="ndarray")
+        if case["container"] == "dataframe" and case.get("label_kind") in ("sparse", "permuted"):
+            yield dict(case, label_kind="shifted", names=[1 + c for c in range(m)])
         if len(Xn) > 1:
             yield dict(case, Xnew=Xn[:1])
         for i in range(n):
@@ -362,19 +385,35 @@ class CHECK(Check):
                     yield dict(case, X=X2)
 
     # ---------------------------------------------------------------- implementation
+    @staticmethod
+    def _labels(case):
+        """column labels of the DataFrame container, by position (strings or ints); the default RangeIndex for kind `range`"""
+        if case.get("label_kind") == "range":
+            return list(range(len(case["X"][0])))
+        return list(case["names"])
+
+    @staticmethod
+    def _label_code(lbl):
+        """labels as the code numbers the driver's `corrsrc.lookup df` works with (distinct labels -> distinct codes)"""
+        if isinstance(lbl, int):
+            return 1000 + lbl
+        return NAMES.index(lbl) + 1 if lbl in NAMES else 100 + sum(map(ord, lbl))
+
     def _build(self, case, M):
         rows = [[float(F(v)) for v in r] for r in M]
         if case["container"] == "ndarray_int":
             return np.array([[int(F(v)) for v in r] for r in M], dtype=np.int64)
         if case["container"] == "dataframe":
             import pandas as pd
-            return pd.DataFrame(rows, columns=case["names"])
+            if case.get("label_kind") == "range":
+                return pd.DataFrame(rows)
+            return pd.DataFrame(rows, columns=self._labels(case))
         return np.array(rows, dtype=float)
 
     def impl(self, case):
         from fairlearn.preprocessing import CorrelationRemover
         X, Xn = self._build(case, case["X"]), self._build(case, case["Xnew"])
-        ids = [case["names"][i] for i in case["ids"]] if case["container"] == "dataframe" else list(case["ids"])
+        ids = [self._labels(case)[i] for i in case["ids"]] if case["container"] == "dataframe" else list(case["ids"])
         alpha = float(F(case["alpha"]))
         ms = len(ids)
         # the `rcond` np.linalg.lstsq is actually called with during fit (tie of the lifted `CorrRemoverSrc.lstsqRcond`)
@@ -418,8 +457,8 @@ class CHECK(Check):
                f"corrsrc.transform {X} {ids} {em} {eb} {proto.rat(sp.alpha)}"]
         # `sensitive` of _split_X through the lifted _create_lookup table: by name (DataFrame) or by position (ndarray)
         if case["container"] == "dataframe":
-            code = lambda nm: NAMES.index(nm) + 1 if nm in NAMES else 100 + sum(map(ord, nm))  # noqa: E731
-            ls.append(f"corrsrc.lookup df {proto.lst([code(c) for c in case['names']])} {proto.lst([code(case['names'][i]) for i in case['ids']])}")
+            code, labels = self._label_code, self._labels(case)
+            ls.append(f"corrsrc.lookup df {proto.lst([code(c) for c in labels])} {proto.lst([code(labels[i]) for i in case['ids']])}")
         else:
             ls.append(f"corrsrc.lookup arr {sp.m} {ids}")
         # theorem output_independent_of_solution on the driver: two exact solutions, same alpha = 1 output
@@ -641,11 +680,20 @@ class CHECK(Check):
                 "sensitive_means_differ" if means_differ else "sensitive_means_equal",
                 "ids=sorted" if sorted(sp.ids) == sp.ids else "ids=unsorted",
                 "n<=ms" if sp.n <= sp.ms else "n>ms"]
+        if case["container"] == "dataframe":
+            labels = self._labels(case)
+            lk = case.get("label_kind", "str")
+            tags.append("labels=" + lk)
+            if any(isinstance(c, int) for c in labels):
+                tags.append("int_labels=" + ("equal_positions" if labels == list(range(len(labels))) else
+                                             "valid_other_positions" if any(labels[i] != i and 0 <= labels[i] < len(labels) for i in sp.ids)
+                                             else "not_positions"))
         if len(set(sp.ids)) < len(sp.ids):
             tags.append("ids=repeated")
         if any(any(p) for p in sp.P):
             tags.append("correlation_present")
         if "exc" in o:
             tags.append("raised=" + o["exc"])
-        key = (tuple(map(tuple, case["X"])), tuple(case["ids"]), case["alpha"], case["container"], tuple(map(tuple, case["Xnew"])))
+        key = (tuple(map(tuple, case["X"])), tuple(case["ids"]), case["alpha"], case["container"], tuple(map(tuple, case["Xnew"])),
+               tuple(map(str, self._labels(case))) if case["container"] == "dataframe" else ())
         return key, sp.rank >= 1, tags
